@@ -1,2 +1,3 @@
 //! Shared reference models / validators.
 pub mod lockdep;
+pub mod utf16;
